@@ -29,7 +29,7 @@ DATASETS = {
     "D12": ("lawB", 1, (313.15, 343.15), (0.05, 0.2, 0.4, 0.6, 0.8, 0.95)),
     # measurements AT the positions where include_zero puts its zero points (x = 0 for the first, x = 1 for the second component)
     "D5edge0": ("lawA", 0, (333.15,), (0.0, 0.25, 0.5, 0.75, 1.0)),
-    "D6edge1": ("lawB", 1, (313.15, 343.15), (0.0, 0.5, 1.0)),
+    "D6edge1": ("lawB", 1, (343.15, 313.15), (0.0, 0.5, 1.0)),  # hot curve FIRST: the caller's points are not in ascending temperature order
     "D24": ("lawA", 1, (303.15, 323.15, 343.15), (0.04, 0.12, 0.25, 0.4, 0.55, 0.7, 0.85, 0.97)),
     "D40": ("lawB", 0, (303.15, 318.15, 333.15, 348.15), tuple(0.03 + 0.1 * i for i in range(10))),
 }
@@ -160,6 +160,12 @@ def judge_history(case):
 def bestof_data(spec):
     """multi-temperature data that no PervaporationFunction of the requested orders represents exactly
     (deterministic relative 'noise'), so the losses of the candidate orders are all distinct and unordered."""
+    if spec[0] == "replicates":
+        # replicate measurements: the same composition and temperature measured twice with DIFFERENT results (and once more, equal)
+        _tag, ci, t, flat, k = spec
+        pts = [OPT.Measurement(x=x, t=t, p=flat) for x in (0.1, 0.3, 0.7, 0.9)]
+        pts += [OPT.Measurement(x=0.5, t=t, p=flat * 3.0), OPT.Measurement(x=0.5, t=t, p=flat), OPT.Measurement(x=0.3, t=t, p=flat * (1.0 + 0.2 * (k + 1)))]
+        return OPT.Measurements(data=pts)
     law, ci, temps, xs, k = spec
     pts = []
     i = 0
@@ -316,6 +322,9 @@ def main(tier, seed):
             if not q:
                 bo.append({"data": (law, ci, T5, (0.06, 0.32, 0.74), k), "n": 2, "m": 3, "include_zero": bool(k % 2)})
                 bo.append({"data": (law, ci, T4, (0.1, 0.5, 0.9), k), "n": 0, "m": 3, "include_zero": True})
+    for k in range(2 if q else 4):
+        for ci in (0, 1):
+            bo.append({"data": ("replicates", ci, 333.15, 1.0 + 0.5 * k, k), "n": 2, "m": 0, "include_zero": False})
     mb = core.run_space(rep, core.ListSpace("best_of_search", bo), judge_bestof, chunk=1)
     rep.note("best_of_rows_with_non_monotone_loss_in_m", mb["extra"].get("rows_with_non_monotone_loss", 0))
     vsets = ["MeOH_DMC", "EtOH_ETBE"] if q else ["MeOH_DMC", "EtOH_ETBE", "H2O_AceticAcid", "MeOH_MTBE", "MeOH_Toluene", "H2O_MeOH", "H2O_iPOH", "H2O_EtOH"]
